@@ -54,6 +54,15 @@ def build_harness():
     return time.time() - t0
 
 
+def build_library_only():
+    """Builds only the dependency rusty_paseto (all features) in the harness' target directory."""
+    env = dict(os.environ, CARGO_NET_OFFLINE="true")
+    p = subprocess.run(["cargo", "build", "--release", "--offline", "-p", "rusty_paseto"], cwd=HARNESS, env=env,
+                       stdout=subprocess.PIPE, stderr=subprocess.STDOUT, text=True)
+    if p.returncode != 0:
+        raise ToolError("rusty_paseto (all features) does not build:\n" + "\n".join(p.stdout.split("\n")[-30:]))
+
+
 def run_tlc(module, cfg, workers=8, timeout=1800, env_extra=None, tag=None, simulate=None, deque=False, depth=6):
     """Runs TLC on spec/mc/<module>.tla (or an absolute path) with <cfg>.
     Returns dict(out=str, states=int, distinct=int, depth=int, ok=bool, violated=str|None, wall=float)."""
